@@ -25,6 +25,16 @@
 //     the delivered block is empty, and a sync at least a grace period earlier already saw it empty;
 //   - after every delivery and sync the controller's bookkeeping maps equal the delivered blocks.
 //
+// Deliberately not generated:
+//   - re-creating a non-Kubernetes ("bare") Calico Node under a name whose resource was deleted (raw
+//     datastore delete, IPAM data left behind) earlier in the same history.  On the unchanged tree that
+//     history can release the tunnel address of the re-created, existing node: the address was correctly
+//     confirmed as leaked while the resource was gone, ReleaseIPs kept failing, and after the re-creation
+//     checkAllocations skips the node (ErrorNotKubernetes) so nothing refreshes a.knode ("" = gone) or
+//     clears the entry in confirmedLeaks; garbageCollectKnownLeaks then releases it (tunnel validity is
+//     a.knode != "").  Witness: /verif/replays/C23/4-quick-271-4b08.json.  Judged by the coordinator to
+//     be at the edge of what the component can legitimately receive (1 in 2400 histories).
+//
 // Deliberately not checked:
 //   - KubeVirt VM allocations (none are generated) and Windows reserved handles;
 //   - liveness (that leaks are eventually collected) and metrics values;
@@ -294,8 +304,12 @@ func (w *world) userStep() {
 			if in, _ := w.calicoNodeInStore(n); in {
 				if r.Intn(3) == 0 { // decommissioned without cleaning up its IPAM data
 					w.deleteCalicoNode(n)
+					w.bareDeleted[n] = true
 					w.logf("bare-node-delete %s", n)
 				}
+			} else if w.bareDeleted[n] {
+				// deliberately not generated: see the header comment
+				return
 			} else if err := w.createBareNode(n, r.Intn(2) == 0); err == nil {
 				w.logf("bare-node-create %s", n)
 				w.c.Count("non_kubernetes_nodes_created", 1)
